@@ -109,6 +109,13 @@ func parseFixture(text string) (*fsFixture, error) {
 
 func fsToken(ino int) string { return fmt.Sprintf("@@%d@@", ino) }
 
+// fsContent is the content of the regular fixture file with this inode number: its token,
+// `ino` bytes of padding, a newline (so sizes are pairwise distinct); its mtime is
+// fsBaseTime + 100*ino seconds (Model/Cond.lean: fileSize, fileMtime).
+func fsContent(ino int) string { return fsToken(ino) + strings.Repeat("x", ino) + "\n" }
+
+const fsBaseTime = 1600000000
+
 var fsTokenRe = regexp.MustCompile(`@@(\d+)@@`)
 var fsHTMLNameRe = regexp.MustCompile(`(?s)<span class="name">(.*?)</span>`)
 
@@ -134,11 +141,27 @@ func (fx *fsFixture) materialise(T, casketfilePath, casketfileText string) error
 			continue
 		}
 		first[e.ino] = full
-		content := fsToken(e.ino) + "\n"
+		content := fsContent(e.ino)
 		if e.path == casketfilePath {
 			content = "# " + fsToken(e.ino) + "\n" + casketfileText
+			// keep sizes distinct: a size identifies one inode (Content-Length, Content-Range)
+			for used := true; used; {
+				used = false
+				for _, o := range fx.entries {
+					if !o.isDir && o.ino != e.ino && len(fsContent(o.ino)) == len(content) {
+						used = true
+					}
+				}
+				if used {
+					content += "#\n"
+				}
+			}
 		}
 		if err := os.WriteFile(full, []byte(content), 0o644); err != nil {
+			return err
+		}
+		mt := time.Unix(fsBaseTime+100*int64(e.ino), 0)
+		if err := os.Chtimes(full, mt, mt); err != nil {
 			return err
 		}
 	}
@@ -171,6 +194,8 @@ func fsCasketfileText(T, root, prefix, browse, index, extra string) string {
 }
 
 type fsSite struct {
+	fx   *fsFixture
+	id   *fsIdent
 	T    string
 	inst *casket.Instance
 	addr string
@@ -229,6 +254,7 @@ func fsSiteFor(keyFields []string, casketfileText func(T string) (string, error)
 		return fail(err)
 	}
 	s.T = T
+	s.fx = fx
 	text, err := casketfileText(T)
 	if err != nil {
 		return fail(err)
@@ -247,6 +273,24 @@ func fsSiteFor(keyFields []string, casketfileText func(T string) (string, error)
 	}
 	s.addr = fmt.Sprintf("127.0.0.1:%d", inst.Servers()[0].Addr().(*net.TCPAddr).Port)
 	return s, nil
+}
+
+// fetch writes one raw request and returns the parsed response with its body.
+func (s *fsSite) fetch(method, target, extraHeaders string) (*http.Response, []byte, error, error) {
+	c, err := net.DialTimeout("tcp", s.addr, 5*time.Second)
+	if err != nil {
+		return nil, nil, nil, err
+	}
+	defer c.Close()
+	c.SetDeadline(time.Now().Add(20 * time.Second))
+	fmt.Fprintf(c, "%s %s HTTP/1.1\r\nHost: fs.test\r\n%sConnection: close\r\n\r\n", method, target, extraHeaders)
+	resp, err := http.ReadResponse(bufio.NewReader(c), &http.Request{Method: method})
+	if err != nil {
+		return nil, nil, nil, err
+	}
+	defer resp.Body.Close()
+	body, rerr := io.ReadAll(resp.Body)
+	return resp, body, rerr, nil
 }
 
 // roundTrip writes one raw request and renders the response canonically.
